@@ -1,6 +1,6 @@
 //! C13: emission of Coq cases for the cells added after the varint codecs (model tie, stricter than the oracle).
 use super::c13_io::Item;
-use super::c13_rd::{Op, Out};
+use super::c13_rd::{Op, Out, WLog};
 use super::Ctx;
 use serde_json::json;
 
@@ -49,16 +49,47 @@ impl Ctx {
     }
     /// A reader history with the implementation's observations (kinds sbr, range, zero-copy; plain and short-read inner).
     pub fn coq_reader(&mut self, kind: usize, data: &[u8], cfg: &[u64], obs: &[(Op, Out)], force: bool) {
-        let (model_kind, chunky) = match kind { 0 => (0, false), 1 => (0, true), 2 => (1, false), 3 => (1, true), 4 => (2, false), 5 => (2, true), _ => return };
-        if data.len() > 200 || obs.len() > 80 { return; }
-        // non-default page alignment changes the capacity, the other constructors are not modelled
-        if cfg.get(10).copied().unwrap_or(0) > 1 || cfg.get(11).copied().unwrap_or(0) != 0 { return; }
         let gc = |i: usize, d: u64| cfg.get(i).copied().unwrap_or(d);
-        let cap = gc(0, 8).max(1);
+        // a buffered reader stacked on a RangeReader over a cursor reads a cursor over the range's bytes
+        // (theorem range_read_is_cursor_read): the buffered-reader model over the slice
+        let slice_owned: Vec<u8>;
+        let data: &[u8] = if kind == 10 {
+            let dl0 = data.len() as u64;
+            let (st, ln) = (gc(7, 0), gc(8, dl0));
+            slice_owned = data[(st.min(dl0) as usize)..(st.saturating_add(ln).min(dl0) as usize)].to_vec();
+            &slice_owned
+        } else { data };
         let dl = data.len() as u64;
+        // the preset constructors whose growth factor the model has (performance_optimized 2.0, low_latency 1.5) and ZeroCopyReader::new:
+        // the same state machines with the preset's numbers (page alignment 4096 divides every preset capacity)
+        let preset: Option<(i128, [i128; 6])> = match kind {
+            11 => match gc(0, 0) % 5 { 1 => Some((0, [131072, 4194304, 1, 4, 4096, 0])), 3 => Some((0, [8192, 262144, 0, 1, 2048, 1])), _ => return },
+            12 => Some((2, [65536, 65536, 1, 2, 8192, 0])),
+            // MmapZeroCopyReader: a position over the mapped bytes (no configuration)
+            6 => Some((3, [0, 0, 0, 0, 0, 0])),
+            10 => {
+                if gc(10, 0) > 1 { return; }
+                let cap = gc(0, 8).max(1);
+                Some((0, [cap as i128, gc(1, 0).max(cap) as i128, gc(2, 1) as i128, gc(3, 2) as i128, gc(4, 8192).max(1) as i128, gc(5, 0) as i128]))
+            }
+            _ => None,
+        };
+        let mut force = force;
+        let preset_cell = format!("reader/{}", super::c13_rd::rkind_name(kind));
+        if preset.is_some() {
+            if *self.uni_used.get(&preset_cell).unwrap_or(&0) >= 40 * self.coq_budget / 2400 || data.len() > 5000 || obs.len() > 80 { return; }
+            force = true;
+        }
+        let (model_kind, chunky) = match kind { 0 => (0, false), 1 => (0, true), 2 => (1, false), 3 => (1, true), 4 => (2, false), 5 => (2, true), 11 => (0, gc(6, 0) != 0), 12 => (2, gc(6, 0) != 0), 10 => (0, false), 6 => (3, false), _ => return };
+        if (preset.is_none() && data.len() > 200) || obs.len() > 80 { return; }
+        // non-default page alignment changes the capacity, the other constructors are not modelled
+        if preset.is_none() && (cfg.get(10).copied().unwrap_or(0) > 1 || cfg.get(11).copied().unwrap_or(0) != 0) { return; }
+        let cap = gc(0, 8).max(1);
         let start = if kind == 3 { gc(7, 0).min(dl) } else { gc(7, 0) };
-        let mut ints: Vec<i128> = vec![cap as i128, gc(1, 0).max(cap) as i128, gc(2, 1) as i128, gc(3, 2) as i128, gc(4, 8192).max(1) as i128, gc(5, 0) as i128,
-            start as i128, gc(8, dl) as i128];
+        let mut ints: Vec<i128> = match preset {
+            Some((_, p)) => vec![p[0], p[1], p[2], p[3], p[4], p[5], 0, dl as i128],
+            None => vec![cap as i128, gc(1, 0).max(cap) as i128, gc(2, 1) as i128, gc(3, 2) as i128, gc(4, 8192).max(1) as i128, gc(5, 0) as i128, start as i128, gc(8, dl) as i128],
+        };
         let chunk = if chunky { gc(6, 1).max(1) as usize } else { 0 };
         let mut out: Vec<i128> = vec![];
         for ((name, n), o) in obs {
@@ -81,7 +112,46 @@ impl Ctx {
                 Out::Unsupported | Out::Flag(..) | Out::Crc(..) | Out::Info(..) => {}
             }
         }
+        if preset.is_some() { *self.uni_used.entry(preset_cell).or_insert(0) += 1; self.sum.dist("coq_preset_reader_histories"); }
         self.coq2(30 + model_kind, chunk, &ints, data, &Some(out), force);
         let _ = json!(null);
+    }
+    /// A writer history (StreamBufferedWriter op 50 / ZeroCopyWriter op 51): per operation the outcome and the destination
+    /// length the implementation showed, then the destination after into_inner.
+    pub fn coq_writer(&mut self, cell: &str, zc: bool, cap: i128, bulk: i128, chunk: i128, log: &[WLog], dest: &[u8]) {
+        if log.iter().any(|l| l.code < 0) || log.len() > 60 { return; }
+        if log.iter().map(|l| l.data.len()).sum::<usize>() > 6000 { return; }
+        let used = self.uni_used.entry(cell.to_string()).or_insert(0);
+        if *used >= 45 * self.coq_budget / 2400 { return; }
+        *used += 1;
+        let mut ints: Vec<i128> = vec![cap, bulk];
+        let mut obs: Vec<i128> = vec![];
+        for l in log {
+            ints.extend([l.code, l.arg, l.data.len() as i128]);
+            ints.extend(l.data.iter().map(|&b| b as i128));
+            obs.extend([l.out, l.dest]);
+        }
+        obs.extend(dest.iter().map(|&b| b as i128));
+        self.sum.dist("coq_writer_histories");
+        self.coq2(if zc { 51 } else { 50 }, chunk as usize, &ints, &[], &Some(obs), true);
+    }
+    /// A RangeWriter history (op 52): the outcome of every write / flush / seek, then the destination afterwards
+    /// (the model replays the inner writes it derives on a cursor over the original destination).
+    pub fn coq_range_writer(&mut self, cell: &str, start: u64, end: u64, orig: &[u8], log: &[WLog], out: &[u8]) {
+        if log.iter().any(|l| l.code < 0) || log.len() > 60 || orig.len() > 3000 || out.len() > 3000 { return; }
+        if log.iter().map(|l| l.data.len()).sum::<usize>() > 6000 { return; }
+        let used = self.uni_used.entry(cell.to_string()).or_insert(0);
+        if *used >= 45 * self.coq_budget / 2400 { return; }
+        *used += 1;
+        let mut ints: Vec<i128> = vec![start as i128, end as i128];
+        let mut obs: Vec<i128> = vec![];
+        for l in log {
+            ints.extend([l.code, l.arg, l.data.len() as i128]);
+            ints.extend(l.data.iter().map(|&b| b as i128));
+            obs.push(l.out);
+        }
+        obs.extend(out.iter().map(|&b| b as i128));
+        self.sum.dist("coq_range_writer_histories");
+        self.coq2(52, 0, &ints, orig, &Some(obs), true);
     }
 }
